@@ -109,11 +109,11 @@ CHECKS = {
    ref="DESIGN.md §5 C16",
    note="Generated/Ranking.lean (harness/translate_ranking.py): pipe_ssporFit – the statements after the optimizer call are tailShuffle σ m for every ranking, mode count, sensor count and permutation oracle (seed must reach np.random.default_rng unmodified); selection_<method>_k – every slice of ranked_sensors_ in predict / get_selected_sensors is selectLead n_sensors. numpy's Generator.permutation is a parameter (a permutation, a function of the seed)."),
  "C17": dict(
-   cat="proof", technique="Lean 4 theorems about the metric definitions (relative error identity, det(T^T T) >= 0, selection matrix = row gather, model determinant) + recomputation through the public API and exact rational determinant",
+   cat="proof", technique="Lean 4 theorems about the metric definitions (relative error identity, det(T^T T) >= 0, selection matrix = row gather, model determinant) + recomputation through the public API and exact rational determinant + translator regenerating the definitions of score / reconstruction_error / relative_reconstruction_error / determinant from the AST (metricsProg = MetricsProg.spec by decide; the determinant program evaluated with the exact determinant is determinantModel)",
    text="rel_error_identity, det_gram_nonneg, theta_eq_gather, determinantModel_nonneg, sqErr_self; real score / reconstruction_error / relative_reconstruction_error / determinant are compared with their definitions recomputed through public predict "
         "(on a copy with set_number_of_sensors(k)), custom score callables, and the exact determinant of the model.",
    ref="DESIGN.md §5 C17",
-   note="PARTIAL on rounding (budgeted). numpy.linalg.det/norm are parameters."),
+   note="Generated/Metrics.lean (harness/translate_metrics.py): metrics_definitions, metrics_determinant_is_model; the score / error formulas are compared structurally with the stated definitions (and recomputed numerically through the public predict), only the determinant dispatch has an evaluation in Lean. PARTIAL on rounding (budgeted). numpy.linalg.det/norm are parameters."),
  "C18": dict(
    cat="proof", technique="Lean 4 theorems (model run reads B only through its Gram matrix; Gram invariance under right-orthogonal mixing; simulation principle => invariance under positive rescaling; position-free characterisation of tie-free rankings => relabelling equivariance) + metamorphic pairs on the real optimizers and SSPOR",
    text="run_depends_on_gram_only, gram_mul_orthogonal, row_dot_mul_orthogonal, gram_eq_of_dots, greedy_simulation, scale_invariant, strict_ranking_unique, ranking_relabel_equivariant, run_without_ties_is_strict; real QR/CCQR/GQR(all options)/SSPOR runs are compared on exactly representable transforms "
